@@ -261,6 +261,12 @@ def cases(tier):
     sph = ("Sphere", (lambda env: SH.sphere(env)), dict(kind="Sphere", fam="prim"))
     for n in (1, 2):
         cs.append(domain_case(sph[0], sph[1], sph[2], "grid", n, 0, True))
+    # a shape function with an OPTIONAL argument (declared default) whose value arrives through the parameter rows
+    from .c17 import circle_optional_s
+    opt = ("Circle[r(t,s=1)]", circle_optional_s, dict(kind="Circle", fam="dep", dep=True))
+    for method, n in (("random", 2), ("grid", 2)):
+        cs.append(domain_case(opt[0], opt[1], opt[2], method, n, 2, False))
+    cs.append(domain_case(opt[0], opt[1], opt[2], "random", 2, 2, True))
     # second use of objects / several objects of one kind in turn
     for kind in ("Interval", "Circle", "Sphere") + (("Parallelogram",) if not quick else ()):
         for method in ("grid", "random"):
